@@ -182,7 +182,11 @@ func fields(impl string) []*fieldrun.Field {
 			}
 			return new(big.Int).SetBytes(b)
 		}
-		fs = append(fs, &fieldrun.Field{Name: gi.name, Impl: fmt.Sprintf("group.%v.Scalar %s", g, impl), P: P, Max: m1(P), NRegs: 4, Set: set, Get: get,
+		max := m1(P)
+		if !le { // the P-curve scalars take any byte string of the right length: every such value is an operand the API accepts
+			max = m1(pow2(uint(8 * size)))
+		}
+		fs = append(fs, &fieldrun.Field{Name: gi.name, Impl: fmt.Sprintf("group.%v.Scalar %s", g, impl), P: P, Max: max, NRegs: 4, Set: set, Get: get,
 			Mul: func(z, x, y int) { r[z].Mul(r[x], r[y]) }, Add: func(z, x, y int) { r[z].Add(r[x], r[y]) }, Sub: func(z, x, y int) { r[z].Sub(r[x], r[y]) },
 			Neg: func(z, x int) { r[z].Neg(r[x]) }, Inv: func(z, x int) { r[z].Inv(r[x]) },
 			IsZero: func(x int) bool { return r[x].IsZero() }, Eq: func(x, y int) bool { return r[x].IsEqual(r[y]) },
